@@ -1,1 +1,69 @@
-From EV Require Import Model.Polygons.
+(* C06 - cell polygons and dataset extent are faithful to the dataset's coordinates.
+   Statements only; proofs in Proofs/PolygonsP.v.  The polygon of each convention is defined cell-wise from the
+   coordinates ([rect], [cf2d_given_cell], [cf2d_synth_cell], [arakawa_cell], [ugrid_face]); these theorems say at
+   which position each cell's polygon sits, when a cell has none, and what the synthesised bounds are. *)
+From Coq Require Import ZArith QArith List Bool.
+From EV Require Import Base.Index Base.Geom Model.Polygons Proofs.PolygonsP.
+Import ListNotations.
+Open Scope Z_scope.
+
+(* CF 1-D: the polygon at j*nx+i is the rectangle spanned by the bounds of row j and column i *)
+Theorem C06_cf1d_rect : forall lonb latb j i dx dy, (j < length latb)%nat -> (i < length lonb)%nat ->
+  nth (j * length lonb + i) (cf1d_raw lonb latb) None = Some (rect (nth i lonb dx) (nth j latb dy)).
+Proof. exact cf1d_raw_nth. Qed.
+Print Assumptions C06_cf1d_rect.
+
+(* midpoint synthesis: interior bounds are the means of neighbouring centres *)
+Theorem C06_cf1d_pair_means : forall v k d, (S k < length v)%nat ->
+  nth k (pair_means v) d = half (nth (S k) v d + nth k v d).
+Proof. exact pair_means_nth. Qed.
+Print Assumptions C06_cf1d_pair_means.
+
+(* CF 2-D / SHOC simple with stored bounds: the four bounds corners of the cell, in stored order *)
+Theorem C06_cf2d_given : forall ny nx lonb latb j i n, ravel [ny; nx] [j; i] = Some n ->
+  nth (Z.to_nat n) (cf2d_given_raw ny nx lonb latb) None = cf2d_given_cell lonb latb j i.
+Proof. exact cf2d_given_at. Qed.
+Print Assumptions C06_cf2d_given.
+
+(* synthesised 2-D bounds: corners are the mean of the centres present around them *)
+Theorem C06_cf2d_synth : forall ny nx lon lat j i n, ravel [ny; nx] [j; i] = Some n ->
+  nth (Z.to_nat n) (cf2d_synth_raw ny nx lon lat) None = cf2d_synth_cell ny nx lon lat j i.
+Proof. exact cf2d_synth_at. Qed.
+Print Assumptions C06_cf2d_synth.
+
+Theorem C06_synth_corner_mean : forall vs m, nanmean vs = Some m ->
+  (m * inject_Z (Z.of_nat (length (present vs))) == fold_right Qplus 0 (present vs))%Q /\ present vs <> [].
+Proof. exact nanmean_mean. Qed.
+Print Assumptions C06_synth_corner_mean.
+
+Theorem C06_synth_corner_missing : forall vs, nanmean vs = None <-> Forall (fun v => v = None) vs.
+Proof. exact nanmean_none. Qed.
+Print Assumptions C06_synth_corner_missing.
+
+(* Arakawa C / SHOC standard: the four surrounding nodes *)
+Theorem C06_arakawa_nodes : forall nj ni xg yg j i n, ravel [nj; ni] [j; i] = Some n ->
+  nth (Z.to_nat n) (arakawa_raw nj ni xg yg) None = arakawa_cell xg yg j i.
+Proof. exact arakawa_at. Qed.
+Print Assumptions C06_arakawa_nodes.
+
+(* UGRID: the face's nodes in listed order *)
+Theorem C06_ugrid_listed_order : forall nx ny faces n f, nth_error faces n = Some f ->
+  nth n (ugrid_raw nx ny faces) None = ugrid_face nx ny f.
+Proof. exact ugrid_at. Qed.
+Print Assumptions C06_ugrid_listed_order.
+
+(* a cell with any missing coordinate has no polygon *)
+Theorem C06_missing_coordinate_no_polygon : forall cs,
+  ring_of cs = None <-> exists c, In c cs /\ (fst c = None \/ snd c = None).
+Proof. exact ring_of_none. Qed.
+Print Assumptions C06_missing_coordinate_no_polygon.
+
+(* the validity mask says so; a self-intersecting ring is dropped *)
+Theorem C06_mask_iff : forall ps n,
+  nth n (mask_of (finalize ps)) false = true <-> exists r, nth n ps None = Some r /\ ring_simple r = true.
+Proof. exact mask_iff. Qed.
+Print Assumptions C06_mask_iff.
+
+Theorem C06_kept_polygon_unchanged : forall ps n r, nth n (finalize ps) None = Some r -> nth n ps None = Some r.
+Proof. exact finalize_keeps. Qed.
+Print Assumptions C06_kept_polygon_unchanged.
